@@ -113,7 +113,7 @@ def cases(tier, seed):
     picks = [dict(c, feat="permuted") if (j % 3 == 2) else (dict(c, feat="unsorted-default") if (j % 3 == 1 and j > 1) else c) for j, c in enumerate(picks)]
     for cfg in picks:
         K = _total_calls(cfg)
-        for store in (("HDD", "RAM") if (cfg is picks[0] or cfg is picks[2]) else ("HDD",)):
+        for store in ("HDD", "RAM"):        # every configuration also runs once against the in-memory store
             yield {"cfg": cfg, "store": store, "k": None, "id": cid, "dseed": int(rng.integers(0, 2 ** 31))}
             cid += 1
             if store == "RAM":
@@ -140,8 +140,14 @@ def _datasets(cfg, dseed):
         if cfg["task"] == "TSC":
             y = np.array(["a", "b", "c"])[rng.integers(0, 3, size=n)]
             y[:3] = ["a", "b", "a"]
+            if (dseed + d) % 3 == 1:
+                y = np.array([{"a": 3, "b": 10, "c": -2}[v] for v in y], dtype=np.int64)      # integer class labels
+            elif (dseed + d) % 3 == 2:
+                y = np.array([{"a": "10", "b": "2", "c": "33"}[v] for v in y], dtype=object)    # numeric strings kept as objects
         else:
             y = np.round(rng.normal(5, 2, size=n), 3)
+            if (dseed + d) % 3 == 1:
+                y = np.round(y).astype(np.int64)      # counts: an integer-typed target, predictions stay real-valued
         df = pd.DataFrame({"dim_0": cells, "target": y})
         if cfg.get("feat") == "unsorted-default":
             # default feature selection (all columns but the target) on a frame whose column names are not in sorted order
